@@ -217,4 +217,51 @@ theorem MapRel.good {x : L₁.σ} (h : Good x) : MapRel L₁ L₂ φ Good x (φ 
 
 end map
 
+/-! ### refuting a simulation -/
+
+/-- once a run has halted with trace `T`, every run from the same state shows a prefix of `T` -/
+theorem run_prefix_of_halted (L : LTS ε) (ω : Nat → Bool) : ∀ (m0 m k : Nat) (b : L.σ) (T : List (Obs ε)),
+    run L ω m0 k b = (T, none) → (run L ω m k b).1 <+: T := by
+  intro m0
+  induction m0 with
+  | zero => intro m k b T h; simp [run] at h
+  | succ m0 ih =>
+    intro m k b T h
+    cases m with
+    | zero => simp [run]
+    | succ m =>
+      simp only [run] at h ⊢
+      cases hs : L.step b with
+      | silent b' =>
+        simp only [hs] at h ⊢
+        exact ih m k b' T h
+      | emit e b' =>
+        simp only [hs] at h ⊢
+        obtain ⟨rfl, h2⟩ := Prod.mk.inj h
+        exact List.prefix_cons_inj _ |>.mpr (ih m k b' _ (Prod.ext rfl h2))
+      | test e y n =>
+        simp only [hs] at h ⊢
+        obtain ⟨rfl, h2⟩ := Prod.mk.inj h
+        exact List.prefix_cons_inj _ |>.mpr (ih m (k + 1) _ _ (Prod.ext rfl h2))
+      | halt e =>
+        simp only [hs] at h ⊢
+        obtain ⟨rfl, _⟩ := Prod.mk.inj h
+        exact List.prefix_refl _
+
+/-- a trace of the left system that is not a prefix of the final trace of the (halting) right system refutes `Sim` -/
+theorem not_sim_of_halted [DecidableEq ε] (L₁ L₂ : LTS ε) (a : L₁.σ) (b : L₂.σ) (ω : Nat → Bool) (n m0 k : Nat)
+    (T : List (Obs ε)) (h2 : run L₂ ω m0 k b = (T, none)) (h1 : (run L₁ ω n k a).1.isPrefixOf T = false) :
+    ¬ Sim L₁ L₂ a b := by
+  intro hs
+  obtain ⟨m, hp, _⟩ := hs ω n k
+  have := hp.trans (run_prefix_of_halted L₂ ω m0 m k b T h2)
+  rw [← List.isPrefixOf_iff_prefix] at this
+  rw [this] at h1
+  cases h1
+
+theorem not_sim_of_halted' [DecidableEq ε] (L₁ L₂ : LTS ε) (a : L₁.σ) (b : L₂.σ) (ω : Nat → Bool) (n m0 k : Nat)
+    (h2 : (run L₂ ω m0 k b).2 = none) (h1 : (run L₁ ω n k a).1.isPrefixOf (run L₂ ω m0 k b).1 = false) :
+    ¬ Sim L₁ L₂ a b :=
+  not_sim_of_halted L₁ L₂ a b ω n m0 k _ (Prod.ext rfl h2) h1
+
 end ESV.Beh
